@@ -775,6 +775,7 @@ def run(tier):
         return None, None, ob
 
     n_df_req, n_df_err, n_df_ok, n_df_noref = 0, 0, 0, 0
+    df_seen = {}
     for (wname, tree_, cfg_, docs_, dirs_), cases_, r in zip(dfworlds, dfmeta, dfres):
         refs = {}
         for case, cres in zip(cases_, r["res"]["cases"]):
@@ -815,6 +816,9 @@ def run(tier):
                     found = True
                     tag_ += ":fault" if case["nth"] == 1 else ":late-fault"
                     reported_tags.add(tag_)
+                    df_seen[(tag_, case["fault"])] = df_seen.get((tag_, case["fault"]), 0) + 1
+                    if df_seen[(tag_, case["fault"])] > 1:
+                        continue                       # one replay per tag and kind of fault is enough
                     near = [e for e in tree_ if ("/" + e["path"] + "/").startswith(sel + "/") or
                             ("/" + e["path"]).startswith(sel + ".") or (sel + "/").startswith("/" + e["path"] + "/")]
                     if case["isdir"]:
@@ -902,7 +906,11 @@ def run(tier):
                    "header-like lines, blank lines, CRLF, empty, long, trailing blank, non-printable), a mailbox and its messages; "
                    "each through '!', '$' and '+'; K: real handleeaext and str.splitlines vs model, populatefromfs vs the entries the "
                    "protocol rendered, rendered entries vs response bytes (dates masked), Python parser twin vs Coq parser; "
-                   "search: blocks of each item vs the files on disk, +INFO vs the plain Gopher menu, length prefixes")
+                   "search: blocks of each item vs the files on disk, +INFO vs the plain Gopher menu, length prefixes; "
+                   "fault legs: each sidecar of an item in turn cannot be opened; the requested document cannot be opened / the "
+                   "requested directory cannot be listed although stat() succeeded (EACCES, EIO, EMFILE, removed since the stat) "
+                   "through '+', '$' and '!': the error reply alone, or a well-framed success reply carrying what the fault-free "
+                   "reply carries")
     for name, detail in kbroken:
         chk.correspondence_broken(name, detail, found)
     chk.finish_proofs(found)
@@ -1015,7 +1023,7 @@ def replay(path):
             print(res[0]["err"])
             return 2
         out = gen.mask_times(res[0]["res"]["cases"][0]["results"][0]["out"].encode("latin-1")).decode("utf-8", "surrogateescape")
-        print("fault   :", rep["fault"], rep["fault_path"])
+        print("fault   :", rep["fault"], rep["fault_path"], "(%s, from call %d on)" % (rep.get("fault_call", "open"), rep.get("fault_nth", 1)))
         print("request :", repr(rep["request_latin1"]))
         print("response:", repr(out[:1500]))
         same = out[:1500] == rep["response_latin1"]
